@@ -9,6 +9,7 @@ with the values on entry.
 from __future__ import annotations
 
 import ast
+import os
 
 from .absint import NONE, App, Cfg, ClassV, Const, DictV, ExcV, FuncV, Interp, ListV, ObjV, Out, Policy, Sym
 from .repo import AnalysisError, call_name, dotted, norm
@@ -96,7 +97,7 @@ class FlowPolicy(Policy):
                         try:
                             return _lit(ast.literal_eval(st.value))
                         except Exception:  # noqa - not a literal: a table built from literals (`{**dict.fromkeys((..), 60), ..}`)
-                            v = _const_expr(self.program, rel, st.value)
+                            v = _const_expr(self.program, rel, st.value, {k: x for k, x in self.globals_.items() if _concrete(x)})
                             if v is not None:
                                 return v
                             break
@@ -158,12 +159,21 @@ class FlowPolicy(Policy):
         if not label or label.count(".") != 1 or isinstance(interp.call_stack[-1] if interp.call_stack else None, ast.Lambda):
             return label, cfg
         var, meth = label.split(".")
-        if var in ("self", "cls") or var not in cfg.env:
+        if var in ("self", "cls"):
             return label, cfg
         known = self._known_labels()
         if label in known:
             return label, cfg
         fn = interp.call_stack[-1] if interp.call_stack else None
+        if fn is not None and not isinstance(fn, ast.Lambda) and var.isidentifier():
+            # a local bound once to an attribute read (`future = self._future`): the call is the call on that attribute
+            from .repo import deref_local, dotted
+            v = deref_local(fn, ast.Name(id=var, ctx=ast.Load()))
+            d = dotted(v) if not isinstance(v, ast.Name) else None
+            if d and f"{d}.{meth}" in known:
+                return f"{d}.{meth}", cfg
+        if var not in cfg.env:
+            return label, cfg
         key = id(fn)
         if key not in self._fn_names:
             names = set()
@@ -462,13 +472,45 @@ def _concrete(v):
     return False
 
 
-def _const_expr(program, rel, node):
-    """Value of a module-level constant expression built from literals only (interpreted, never executed), or None."""
+def _module_name_value(program, rel, name, given, depth=3):
+    """Value of the module-level name ``name`` of module ``rel``: a constant assigned there or imported from a sibling module of the package."""
+    if name in given:
+        return given[name]
+    if depth <= 0:
+        return None
+    try:
+        mod = program.module(rel)
+    except Exception:  # noqa
+        return None
+    for st in mod.body:
+        if isinstance(st, ast.Assign) and len(st.targets) == 1 and isinstance(st.targets[0], ast.Name) and st.targets[0].id == name:
+            return _const_expr(program, rel, st.value, given, depth - 1)
+        if isinstance(st, ast.ImportFrom) and st.level >= 1 and any((a.asname or a.name) == name for a in st.names):
+            orig = next(a.name for a in st.names if (a.asname or a.name) == name)
+            base = os.path.dirname(rel)
+            for _ in range(st.level - 1):
+                base = os.path.dirname(base)
+            target = os.path.join(base, *(st.module or "").split(".")) if st.module else base
+            for cand in (target + ".py", os.path.join(target, "__init__.py")):
+                cand = os.path.normpath(cand)
+                if cand in program.modules:
+                    return _module_name_value(program, cand, orig, {}, depth - 1)
+    return None
+
+
+def _const_expr(program, rel, node, given=None, depth=3):
+    """Value of a module-level constant expression built from literals and other module-level constants (interpreted, never executed), or None."""
     if any(isinstance(n, (ast.Await, ast.Lambda, ast.Yield, ast.YieldFrom, ast.NamedExpr)) for n in ast.walk(node)):
         return None
     from .absint import Interp, Policy
+    env = {}
+    for n in ast.walk(node):
+        if isinstance(n, ast.Name) and n.id not in env:
+            v = _module_name_value(program, rel, n.id, given or {}, depth)
+            if v is not None and _concrete(v):
+                env[n.id] = v
     try:
-        res = Interp(Policy(program), rel).ev(node, Cfg(), Out())
+        res = Interp(Policy(program), rel).ev(node, Cfg(env=env), Out())
     except Exception:  # noqa - not interpretable: not a constant for this purpose
         return None
     if len(res) == 1 and _concrete(res[0][1]):
